@@ -12,10 +12,11 @@
     `C14_full_false`  refuted from one concrete witness per finding (F1 … F5),
     `C14_partial`     the property outside the finding triggers (`Supported_14`), narrowed by the explicitly
                       named `Proved_14` (no mutator on a class-level object anywhere in the history or the
-                      operation — stronger than ¬F4, which only forbids *re-using* a mutated accessor);
-                      the region between the two is covered by correspondence and oracle only.
+                      operation — stronger than ¬F4, which only forbids *re-using* a mutated accessor;
+                      `proved_within_supported`); the region between the two is covered by correspondence
+                      and oracle only.
 -/
-import AriadneModel.Proofs.C14Main
+import AriadneModel.Proofs.C14Total
 
 set_option linter.unusedSimpArgs false
 set_option linter.unusedVariables false
@@ -65,6 +66,20 @@ theorem history_free (p : Package) (H : List Op) (E : Op)
     (runOps p (H ++ [E])).getLast? = (runOps p [E]).getLast? := by
   obtain ⟨a, b⟩ := getLast_runOps p H E hH
   rw [a, b]
+
+/-- the `while unique_name in used_names` loop always ends with a free name: `|used| + 1` pairwise distinct
+    candidates cannot all be taken (the model's guard branch is unreachable) -/
+theorem format_variable_name_total (idx : Nat) (name : String) (used : List String) :
+    ∃ u used', formatVarName idx name used = .ok (u, used') := formatVarName_ok idx name used
+
+/-- `fresh_never_raises`: in a process whose class-level objects are untouched, an operation that applies no
+    mutator to them and that is well-formed for the generated classes (`Intended` exists) always sends a
+    document — no RecursionError (the fuel covers every acyclic tree), no AttributeError/TypeError. -/
+theorem fresh_never_raises (p : Package) (H : List Op) (E : Op)
+    (hH : ∀ op ∈ H, opMutatesShared op = false) (hE : opMutatesShared E = false)
+    (hI : (Intended p E).isSome = true) : ∃ d, (runOps p (H ++ [E])).getLast? = some (.ok d) := by
+  obtain ⟨d, hd⟩ := runOp_sends p E hE hI
+  exact ⟨d, by rw [(getLast_runOps p H E hH).1, hd]⟩
 
 /-- `declared_once_and_bound` + the recorded type: one client call over a process whose class-level objects
     are untouched, a tree carrying no argument below level 2 (¬F2) and no variable name shared between two
@@ -213,15 +228,19 @@ def Supported_14 (s : Schema) (H : List Op) (E : Op) : Prop :=
 def Proved_14 (H : List Op) (E : Op) : Prop :=
   (∀ op ∈ H, opMutatesShared op = false) ∧ opMutatesShared E = false
 
-/-- the builder does not raise (the totality of `to_ast` on acyclic object graphs — fuel, pigeonhole of the
-    name loop — is not proved yet; it is a hypothesis here and observed by the correspondence check) -/
-def Sends (s : Schema) (H : List Op) (E : Op) : Prop :=
-  ∃ d, (runOps (genPackage s) (H ++ [E])).getLast? = some (.ok d)
+/-- `Proved_14` lies inside the complement of the F4 trigger -/
+theorem proved_within_supported (H : List Op) (E : Op) (h : Proved_14 H E) : trigSharedMut H E = false :=
+  trigSharedMut_of_noMut H E h.1 h.2
 
 theorem C14_partial (s : Schema) (H : List Op) (E : Op)
-    (hvalid : ValidExpr s (genPackage s) E = true) (hsup : Supported_14 s H E) (hpr : Proved_14 H E)
-    (hsends : Sends s H E) : GoodAfter s H E := by
-  obtain ⟨d, hd⟩ := hsends
+    (hvalid : ValidExpr s (genPackage s) E = true) (hsup : Supported_14 s H E) (hpr : Proved_14 H E) :
+    GoodAfter s H E := by
+  have hI : (Intended (genPackage s) E).isSome = true := by
+    unfold ValidExpr at hvalid
+    split at hvalid
+    · rename_i root rs hroot hint; simp [hint]
+    · simp at hvalid
+  obtain ⟨d, hd⟩ := fresh_never_raises (genPackage s) H E hpr.1 hpr.2 hI
   unfold Supported_14 at hsup
   simp only [not_or, Bool.not_eq_true] at hsup
   obtain ⟨h1, h2, h3, -, h5⟩ := hsup
@@ -321,15 +340,6 @@ theorem texts_history {H : List Op} {E : Op} (g : GoodAfter schema H E) : sentTe
   obtain ⟨d, g⟩ := g
   simp only [sentText, lastDoc_of g.sent, List.nil_append, lastDoc_of g.historyFree]
 
-theorem sends_of_text {H : List Op} {E : Op} (h : (sentText H E).isSome = true) : Sends schema H E := by
-  unfold Sends
-  cases hh : (runOps (genPackage schema) (H ++ [E])).getLast? with
-  | none => simp [sentText, lastDoc, hh] at h
-  | some r =>
-    cases r with
-    | ok d => exact ⟨d, rfl⟩
-    | error e => simp [sentText, lastDoc, hh] at h
-
 /-- all witness operations are well-typed selections written with the generated classes -/
 theorem witnesses_valid : ∀ op ∈ [opF1, opF2, opF3, opF4h, opF4, opF4r, opF5], ValidExpr schema (genPackage schema) op = true := by
   decide
@@ -415,6 +425,8 @@ example : Proved_14 [W.opHist] W.opOK := by unfold Proved_14; decide
 example : W.sentText [W.opHist] W.opOK = some
     "query Op($n_0_1: String $n_1: Int) { me() { id() p: posts() { id() } } other: b(n_0: $n_0_1) { part(n: $n_1) } } n_0_1:\"s\",n_1:1e-0," := by
   decide
-example : Sends W.schema [W.opHist] W.opOK := W.sends_of_text (by decide)
+/-- … so `C14_partial` applies to it: -/
+example : GoodAfter W.schema [W.opHist] W.opOK :=
+  C14_partial W.schema [W.opHist] W.opOK (by decide) (by unfold Supported_14; decide) (by unfold Proved_14; decide)
 
 end Ariadne.C14
